@@ -43,7 +43,7 @@ PROPS = {
                 outside=["the std::sync::Mutex implementation itself (axiomatised)", "more than 3 threads x 2 calls in the schedule encoding (the argument is symmetric in threads)", "poisoning after a panicking closure"]),
     "C11": dict(claim="The four key-range read ops (real MIR of step_op_state_reads, key_range(_ext), pop_key_range_args, write_values_to_memory) with two distinguishable uninterpreted views: the request goes to the right view (pre/post) for the right contract (the solved contract, or the 4 big-endian external address words) with exactly the popped key and count; the state may answer with an error (returned unchanged as OpError::StateRead) or with 0..2 values of 0..1 (thorough 0..2) words independent of the count; on Ok memory holds [address, length] pairs then the values back-to-back at the given address, every other word and the memory length unchanged, the stack is exactly the words below the operands; values that do not fit, negative operands or missing words are errors. key_len / count / addr are any i64.",
                 outside=["memory above 5 (7) words, keys above 2 words, more than 2 returned values"]),
-    "C12": dict(claim="PredicateData / PredicateDataLen / PredicateDataSlots / ThisAddress / ThisContractAddress on 1..2 solutions with symbolic slots and 32-byte addresses, operands any i64, against asm.yml; Sha256 op: exactly ceil(len/8) words are consumed and the hasher sees exactly their first len bytes for every byte length incl. non-multiples of 8, result = the digest as 4 big-endian words; PredicateExists: one hash per solution over exactly len-prefixed slots ‖ contract ‖ predicate, result 1 iff the popped words equal one of the digests. SHA-256 is an uninterpreted function (equal inputs, equal digests).",
+    "C12": dict(claim="PredicateData / PredicateDataLen / PredicateDataSlots / ThisAddress / ThisContractAddress on 1..2 solutions with symbolic slots and 32-byte addresses, operands any i64, against asm.yml; Sha256 op: exactly ceil(len/8) words are consumed and the hasher sees exactly their first len bytes for every byte length incl. non-multiples of 8, result = the digest as 4 big-endian words; PredicateExists: one hash per solution over exactly len-prefixed slots ‖ contract ‖ predicate, result 1 iff the popped words equal one of the digests. SHA-256 is an uninterpreted function (equal inputs, equal digests). VerifyEd25519 / RecoverSecp256k1: exactly the documented words are popped in order, marshalled to the byte arrays the libraries see, result word(s) pushed, malformed operands are errors (libraries uninterpreted).",
                 outside=["VerifyEd25519 and RecoverSecp256k1 marshalling (ed25519-dalek / libsecp256k1 wrappers are not modelled)", "agreement with the hash/sign crates is by sharing the uninterpreted SHA-256 only", "that SHA-256 itself is computed correctly"]),
     "C13": dict(claim="The macro-generated codec of essential-asm, executed from MIR against an independent reading of asm.yml: Opcode::try_from for every byte value, single-op parsing of any byte string <=10 bytes (consumed length, big-endian Push immediate for all 2^64 values, NotEnoughBytes/InvalidOpcode), to_bytes(parse(b)) = consumed bytes, parse(to_bytes(op)) = op for every op, short-name constants, and from_bytes/to_bytes over streams of <=3 ops.",
                 outside=["streams longer than the bound rely on the single-step result (induction on the stream)", "the pinned opcode table comparison is done by the asm.yml reader at setup"]),
@@ -55,11 +55,12 @@ PROPS = {
                 outside=["Address for Solution (postcard serialisation is third-party and not modelled) and therefore from_set's plumbing", "injectivity of the fixed-width concatenation is by construction (32-byte chunks), not a separate query", "SHA-256 itself"]),
     "C18": dict(claim="Wire codecs: decode_mutations(encode_mutations(ms)) = ms with the documented layout and sizes (<=2 mutations, key/value <=2 words), decode_predicate(encode_predicate(p)) = p (<=2 nodes, <=3 edges, any edge_start incl. the leaf marker), decode_mutation equals the documented layout on every word string <=6, and node_edges returns exactly the documented sub-range.",
                 outside=["word/byte/hex conversions, Display/FromStr and serde round trips are not yet encoded", "derive-generated serde impls, serde_json and postcard are outside"]),
+    "C19": dict(claim="The Rust plumbing around the secp256k1 / ed25519 primitives, with the primitives as uninterpreted functions: sign::contract::sign then recover returns the signer's key and verify accepts, for every contract with <=1 predicate and every salt, because both sides hash the same content address; recover / verify / RecoverSecp256k1 return an error (never panic) for every 64-byte signature and every recovery-id byte incl. ids >3; the VM op feeds the library exactly the popped 4+8+1 words in order and pushes encode::public_key's 5-word layout; encode::signature/public_key have the documented word layout. Each run also executes a native differential (real keys, real library) of contract sign/recover/verify and of the three VM crypto ops against the sign/hash crates.",
+                outside=["axiom A1: recover(m, sign(m, sk)) = pubkey(sk) and serialize_compact/from_compact are inverse (libsecp256k1 contract)", "axiom A2: RecoveryId is valid iff 0..=3", "ECDSA / SHA-256 internals and therefore 'after any change to the predicates or salt the recovered key differs' (collision / forgery resistance of the primitives); the harness only shows the changed content reaches the hash input", "contracts with >1 predicate"]),
 }
 
 NOT_APPLICABLE = {
     "C02": "thread-schedule independence of the rayon sections: Kani has no concurrency model and ICEs on rayon-reaching code; encoding rayon's work-stealing scheduler for the solver is out of reach; the 'equals the sequential evaluation' half is decided under C01 (DESIGN.md section 5)",
-    "C19": "libsecp256k1 is C behind FFI and its Rust wrapper (Message, RecoverableSignature, RecoveryId, Secp256k1) is not modelled in mirsym; axiomatising sign/recover would verify the axioms, not the code; Kani cannot compile the FFI either",
 }
 
 
